@@ -15,13 +15,32 @@ read in one entry (one contract, one clause per result element) to amortise the 
 """
 from units.common import *
 
-LEVEL_NOTE = ('per instantiation (tensor shape, range tuple, type, ISA, std) the contract is proved for all element values '
-              '(and, for scalar indexing, for all index values incl. negative ones); dynamic seq(first,last,step) triples are '
-              'enumerated exhaustively for rank-1 extents <= 8 (thorough; quick: a V-straddling subset) and rank-2 extents up to 5x6 '
-              '(thorough) / sampled (quick); compile-time families fseq/iseq/all/fix/first/last generated.  Known defect: '
-              'TensorConstViewExpr<T,DIMS>::products_ (dynamic slice of a *const* tensor of rank >= 3) has no out-of-class definition, so under '
-              'C++14 the program does not link (the extracted IR reads an undefined external constant): families seqN-const / mixedN-const / '
-              'seqNv-const fail under c++14 and are proved under c++17')
+LEVEL_NOTE = ('per instantiation (tensor shape, range tuple, type, source kind Tensor/const Tensor/TensorMap, ISA, std) the contract is proved for '
+              'all element values (and, for scalar indexing, for all index values incl. negative ones).  Dynamic seq(first,last,step) triples '
+              'are enumerated: every triple incl. the last-relative encodings for rank-1 extents <= 5 (quick) / <= 8 (thorough), full products '
+              'on 3x3 (quick) / 3x4, 4x5 (thorough) and covering sets on 4x5 / 5x6, result extents V-1, V, V+1, 2V(+1) per ISA with steps 1-3; '
+              'compile-time families fseq / iseq / all / fix / first / last and mixtures are generated.  Known defects (families of their own): '
+              '(1) TensorConstViewExpr<T,DIMS>::products_ (dynamic slice of a const tensor of rank >= 3) has no out-of-class definition: under '
+              'C++14 the program does not link and the extracted IR reads an undefined constant (seqN-const, mixedN-const under c++14; proved under c++17); '
+              '(2) a rank-2 TensorMap slice next to a rank-2 Tensor slice in one expression is evaluated with eval(row,col) although the generic '
+              'view reads eval(i,j) as flat offset i+j (seq2x-map, fseq2x-map).  Not covered because the API rejects them at compile time: '
+              'seq/fseq mixtures on const rank-2 tensors, iseq of rank 3 on non-const / ranks 1,2,4 on const tensors, iseq with `last`; int unary minus '
+              'inside expressions is left to C02 (known SIMD negate defect)')
+
+def evidence_extra(tier):
+    t = tier == 'thorough'
+    return {'box': {
+        'isas': isas(tier), 'std': ['c++14', 'c++17'] if t else ['c++14 (+ c++17 twins of the const rank>=3 families)'],
+        'types': ['int', 'float', 'double'],
+        'scalar_indexing': 'symbolic indices in [-extent, extent-1] per axis, ranks 1-5, Tensor / const Tensor / TensorMap, operator() and operator[]',
+        'rank1_seq_exhaustive_extent': 8 if t else 5, 'rank1_fseq_exhaustive_extent': 6 if t else 4,
+        'rank2_seq_products': ['3x4', '4x5'] if t else ['3x3'], 'rank2_covering': '5x6' if t else '4x5',
+        'encodings': 'non-negative; last negative (x+N+1); first and last negative; integer `last` / fix<last>',
+        'simd_sweep': 'last-axis result extent in {V-1, V, V+1, 2V, 2V+1}, steps {1,2,3}, first offsets {0,1,2}, ranks 1-3',
+        'ranks_3_4': 'random tuples over seq/fseq/all/int/first/last/fix/fix<last> on 2x3x4, 3x4x5, 2x2x3x3',
+        'iseq': 'ranks 1,2,4 (non-const tensors), 3 (const tensors), non-negative bounds',
+        'expressions': '-V (float types), V+V, V op V2 (two ranges of equal extent), V op T; int: + - (SYM); float/double: + - * / (UF on P0)',
+        'dynamic_ranges': 'enumerated (bounded by the extents above), not symbolic'}}
 
 # ----------------------------------------------------------------------------------------------
 # range vocabulary shared with C05
@@ -355,11 +374,11 @@ def cases(tier, seed):
                     if not main and N not in (5, 8): continue
                     if kind == 'fseq' and N > 6: tys = [TYPES[(N + ni) % 3]]
                 else:
-                    if kind == 'fseq' and N > 5: continue
+                    if N > (5 if kind == 'seq' else 4): continue
                     tys = [TYPES[(N + ni + (kind == 'fseq')) % 3]]
                 for ty in tys:
                     ti = TYPES.index(ty)
-                    srcs = ['own'] + (['const', 'map'] if (thorough and main and N in (3, 5, 6)) or (N == 5 and kind == 'seq') or (N == 4 and kind == 'fseq') else [])
+                    srcs = ['own'] + (['const', 'map'] if (thorough and main and N in (3, 5, 6)) or (N == 5 and kind == 'seq') or (N == 3 and kind == 'fseq') else [])
                     for src in srcs:
                         out += exhaustive_1d('%s1-%s' % (kind, src), kind, ty, N, cfg, src, ENCS, per=12 if kind == 'seq' else 8,
                                              rot=None if (thorough and main and src == 'own' and isa in ('sse2', 'avx2')) else ti + N)
@@ -368,7 +387,7 @@ def cases(tier, seed):
             # ---------------- rank 1 and 2: result extent swept across the SIMD width ----------------
             for kind in ('seq', 'fseq'):
                 fixed = kind == 'fseq'
-                sweep = vsweep(V, rot=ti, both=thorough, ss=(1, 2, 3) if (thorough or not fixed) else (1, 2))
+                sweep = vsweep(V, es=None if thorough else sorted({V - 1, V, V + 1, 2 * V + 1} - {0}), rot=ti, both=thorough, ss=(1, 2, 3) if (thorough or not fixed) else (1, 2))
                 for n, (N, e, s, sl) in enumerate(sweep):
                     if e > 17 and not thorough: sl = sl[:2]
                     if not thorough and fixed and (n + ti + ni) % 2: continue     # quick: every second sweep point for the compile-time vocabulary
@@ -376,7 +395,7 @@ def cases(tier, seed):
                     for src in (SRC if thorough and main and isa in QUICK_ISAS else [SRC[(n + ti) % 3]]):
                         out.append(read_case('%s1v-%s' % (kind, src), ty, (N,), [(ax1(kind, f, l, s, N, enc),) for (f, l, enc) in sl], cfg, src=src, ident='e%d.s%d' % (e, s)))
                     # rank 2: leading axis from the menu, last axis swept
-                    if e > 17 and not thorough: continue
+                    if not thorough and (e > 17 or (n + ti + ni) % 2): continue
                     for src in (SRC if thorough and main and isa in QUICK_ISAS else [SRC[(n + ti + 1) % 3]]):
                         M = 3
                         sl2 = [(lead_axis(fixed, M, n + q, pure=(src == 'const')), ax1(kind, f, l, s, N, enc)) for q, (f, l, enc) in enumerate(sl[:3] if not thorough else sl)]
@@ -385,7 +404,7 @@ def cases(tier, seed):
             if thorough:
                 full = ([(3, 4), (4, 5)] if isa in ('sse2', 'avx2') else [(3, 4)]) if main else ([(3, 4)] if ti == ni % 3 else [])
             else:
-                full = [(3, 4)] if ti == (ni + 1) % 3 else []
+                full = [(3, 3)] if ti == (ni + 1) % 3 else []
             for shape in full:
                 pairs = [(a, b) for a in triples(shape[0], False) for b in triples(shape[1], False)]
                 out += product_2d('seq2-own', 'seq', ty, shape, cfg, 'own', pairs, ENC2, ident='p')
@@ -420,7 +439,7 @@ def cases(tier, seed):
                 for fam, kinds in (('seqN', ['seq', 'seq', 'sall']), ('fseqN', ['fseq', 'fseq', 'all', 'fix', 'fixlast']),
                                    ('mixedN', ['seq', 'fseq', 'all', 'int', 'last', 'first', 'fix', 'fixlast'])):
                     for si, src in enumerate(SRC):
-                        if not thorough and (si + ti + len(shape)) % 3 != ni % 3 and fam != 'seqN': continue
+                        if not thorough and (si + ti + len(shape)) % 3 != ni % 3 and (fam != 'seqN' or len(shape) == 4): continue
                         k = (6 if not thorough else (18 if main else 6)) if fam != 'fseqN' else (4 if not thorough else (12 if main else 4))
                         sl = []
                         while len(sl) < k:
@@ -428,7 +447,9 @@ def cases(tier, seed):
                             if all(a.is_integer() for a in axes): continue
                             sl.append(axes)
                         for ci, ch in enumerate(chunked(sl, 6 if fam != 'fseqN' else 4)):
-                            out.append(read_case('%s-%s' % (fam, src), ty, shape, ch, cfg, src=src, ident='r%d' % ci))
+                            # quick: the C++14 build of the generic const view (known link defect) is witnessed by the int cases only
+                            if not (src == 'const' and not thorough and fam != 'fseqN' and ty is not INT):
+                                out.append(read_case('%s-%s' % (fam, src), ty, shape, ch, cfg, src=src, ident='r%d' % ci))
                             if src == 'const' and not thorough and fam != 'fseqN':
                                 # the generic const view of rank >= 3 only links under C++17 (see LEVEL_NOTE): keep a C++17 twin in the quick tier
                                 out.append(read_case('%s-%s' % (fam, src), ty, shape, ch, Cfg(isa, 'c++17'), src=src, ident='r%d' % ci))
@@ -441,7 +462,7 @@ def cases(tier, seed):
                     src = SRC[(n + ti + ni) % 3]
                     sl3 = [(lead_axis(fixed, 3, 2 * n + q + 1), lead_axis(fixed, 3, n + 3 * q), ax1(kind, f, l, s, N, enc)) for q, (f, l, enc) in enumerate(sl)]
                     sl3 = [a for a in sl3 if not all(x.is_integer() for x in a)]
-                    out.append(read_case('%sNv-%s' % (kind, src), ty, (3, 3, N), sl3, cfg, src=src, ident='e%d.s%d' % (e, s)))
+                    out.append(read_case('%sNv-%s' % (kind, src), ty, (3, 3, N), sl3, cfg if not (src == 'const' and not fixed) else Cfg(isa, 'c++17'), src=src, ident='e%d.s%d' % (e, s)))
             # ---------------- iseq (immediate evaluation): ranks 1, 2, 4 on tensors, rank 3 on const tensors ----------------
             if thorough or ti == (ni + 2) % 3:
                 for shape, src in (((7,), 'own'), ((4, 5), 'own'), ((2, 3, 4), 'const'), ((2, 2, 3, 3), 'own')):
@@ -483,7 +504,7 @@ def cases(tier, seed):
                             out.append(expr_case('%s2x-%s' % (kind, src), ty, (3, N), a2[0], cfg, op, (3, e + 1), other2, src=src))
             # rank-2 slice of a TensorMap next to a rank-2 slice of a Tensor in one expression (the generic view and the 2-D view
             # disagree on the meaning of eval(i,j): known defect, kept in families of its own: *2x-map), and next to a plain tensor
-            if ty.kind == 'int' or V <= 8:
+            if ty.kind == 'int' or (V <= 8 and (thorough or ti == 1 + ni % 2)):
                 e = min(V + 1, 5)
                 for ki, kind in enumerate(('seq', 'fseq')):
                     axes = (ax1(kind, 0, 3, 2, 3, 'pos'), ax1(kind, 1, 1 + 2 * e - 1, 2, 2 * e + 1, 'nl'))
